@@ -207,6 +207,8 @@ def allowed_for(shard):
         a.append(4)
     if shard.get("fail", False):
         a.append(5)
+    if shard.get("fine", False):
+        a += [7, 8]
     return tuple(sorted(a))
 
 
@@ -280,7 +282,7 @@ def _run(shard, cs, with_ref, nmd, after_step, r):
             return True
         try:
             run_schedule(world, cs, r.producers, extra=extra, after_step=step_hook,
-                         allowed=allowed_for(shard))
+                         allowed=allowed_for(shard), fine=shard.get("fine", False))
         except Pruned:
             r.pruned = True
             return r
